@@ -146,8 +146,11 @@ def build(targets, quiet=True):
         jobs = str(os.cpu_count() or 4)
         p = subprocess.run(["ninja", "-f", nf, "-j", jobs] + exes, cwd=BUILD,
                            stdout=subprocess.PIPE, stderr=subprocess.STDOUT, text=True)
-        if p.returncode != 0 or not quiet:
+        if not quiet:
             sys.stderr.write(p.stdout)
+        elif p.returncode != 0:
+            errs = [l for l in p.stdout.splitlines() if "error" in l or "FAILED" in l]
+            sys.stderr.write("\n".join(errs[:12]) + "\n")
         return p.returncode == 0, p.stdout
 
 
